@@ -582,6 +582,50 @@ def test_get_by_result(a):
         a.candidates.append(c)
 
 
+def test_get_by_rules(a):
+    """grouping of rule records by name for the `test` command: every RuleCheck record is ADDED to its name's group"""
+    RT = enum_variants(a.src, "rules/mod.rs", "RecordType")
+    ER = struct_fields(a.src, "rules/eval_context.rs", "EventRecord")
+    NS = struct_fields(a.src, "rules/mod.rs", "NamedStatus")
+    top = mirsmt.find_fn(a.mir, r"(?:commands::reporters::test::)?get_by_rules")
+    ok_shape = bool(re.search(r"::fold::<", top)) and bool(re.search(r"children", top) or True)
+    try:
+        ex = a.exec(r"(?:commands::reporters::test::)?get_by_rules::\{closure#0\}",
+                    {"entry": lambda ex, av: ex.opq(), "or_default": lambda ex, av: ex.opq()}, log=("push", "insert"), unroll=1, max_paths=2000)
+    except Untranslatable:
+        ok_shape = False
+    if not ok_shape:
+        a.ob.items.append({"obligation": "test/get_by_rules/grouping", "describe": "get_by_rules is no longer a fold over the child records "
+                           "with one closure: the grouping obligation cannot be stated on this code (inconclusive, not a pass)",
+                           "verdicts": {}, "status": "inconclusive", "model": None})
+        return
+    a.fns.append("commands::reporters::test::get_by_rules (+ its fold closure)")
+    acc, rec = ex.arg_env["_2"], ex.arg_env["_3"]
+    cont = field(ex, rec, ER.index("container"), "Option")
+    some = payload(ex, cont, "Some")
+    isrule = f"(and (= {disc(ex, cont)} 1) (= {disc(ex, some)} {RT.index('RuleCheck')}))"
+    name = field(ex, payload(ex, some, "RuleCheck"), NS.index("name"), "&str")
+    bad = []
+    for p in ex.paths:
+        ents, ods, pushes = calls(p, "entry"), calls(p, "or_default"), [e for e in calls(p, "push") if len(e[2]) == 2]
+        if p.outcome != "return" or not same(p.ret, acc) or calls(p, "insert"):
+            bad.append(pc_term(p.pc))
+            continue
+        if ents:
+            ok = (len(ents) == 1 and same(ents[0][2][0], acc) and same(ents[0][2][1], name) and len(ods) == 1 and same(ods[0][2][0], ents[0][3])
+                  and len(pushes) == 1 and same(pushes[0][2][0], ods[0][3]) and same(pushes[0][2][1], cont))
+            bad.append(f"(and {pc_term(p.pc)} (not {isrule if ok else 'false'}))")
+        else:
+            bad.append(f"(and {pc_term(p.pc)} {isrule})" if not pushes else pc_term(p.pc))
+    c = a.discharge("test/get_by_rules/grouping", ex, bad,
+                    "`test`: folding one child record into the by-name groups - a RuleCheck record is appended (never replaces) to the "
+                    "group of its own rule name, any other record leaves the groups unchanged; the same map is passed on")
+    if c:
+        c["replay"] = replay_test_cmd(a)
+        c["reproduced"] = c["replay"].get("reproduced", False)
+        a.candidates.append(c)
+
+
 def replay_test_cmd(a):
     """`cfn-guard test` on sequences of <= 3 test cases whose expectations match (M) or mismatch (X), in one or two
     test files: exit 0 iff all match, 7 iff some mismatch; an unreadable test file gives a non-zero exit"""
@@ -1222,7 +1266,7 @@ def replay_fail_rule_listed(a):
 SITES = {
     "C06": [structured_report, junit_exit_code, junit_test_case, validate_execute_step, test_generic_report],
     "C12": [structured_report, junit_test_case, data_input_wiring, test_get_by_result],
-    "C16": [test_generic_report, test_get_by_result],
+    "C16": [test_generic_report, test_get_by_result, test_get_by_rules],
     "C09": [report_partition, report_rule_listing],
     "C15": [scope_resolution, param_rule_call],
     "C17": [merge_map, merge_unwrap],
